@@ -355,9 +355,28 @@ def _mc_finish(c, outcome, args, old):
     c.prove("created_steps_detached_iff_failed", tm.Iff(tm.mk_bool(detach), B(st == StepState.FAILED)), kind="post")
 
 
+def _mc_file_transition(e):
+    """C09: a completing step moves its output files only along BUILT -> OUTDATED (failed or deferred) and
+    OUTDATED -> BUILT (succeeded): the role of a file never changes here."""
+    old, new = I(e.old), I(e.state)
+    b, o = tm.mk_int(FileState.BUILT.value), tm.mk_int(FileState.OUTDATED.value)
+    return wrap_bool(tm.Or(tm.And(tm.Eq(old, b), tm.Eq(new, o)), tm.And(tm.Eq(old, o), tm.Eq(new, b))))
+
+
+def _mc_step_transition(e, new_hash, wants_defer):
+    """C09: the step ends SUCCEEDED exactly with a hash, otherwise FAILED or (deferred) PENDING."""
+    st = I(e.state)
+    has = tm.Not(new_hash.isnone) if isinstance(new_hash, sym.SymOpt) else tm.mk_bool(new_hash is not None)
+    ok = tm.Ite(has, tm.Eq(st, tm.mk_int(StepState.SUCCEEDED.value)),
+                tm.Or(tm.Eq(st, tm.mk_int(StepState.FAILED.value)),
+                      tm.And(B(wants_defer), tm.Eq(st, tm.mk_int(StepState.PENDING.value)))))
+    return wrap_bool(ok)
+
+
 @contract("stepup/core/step.py::Step.mark_completed", props=["C10", "C03", "C04", "C09"])
 class mark_completed:
     args = dict(self=_mc_step, new_hash=ty.Opt(ty.Opaque("StepHash")), wants_defer=ty.Bool)
+    events = {"file.set_state": _mc_file_transition, "set_state": _mc_step_transition}
     finish = _mc_finish
     result = ty.Bool
     modifies = []
